@@ -104,6 +104,12 @@ def _l5b_no_overhang_softmasked(S: int, rev: bool, j: int, mask: int) -> bool:
     return S_.check_nla_no_overhang(FakeRead, S_.WindowFasta, S, rev, window) is None
 
 
+
+def preflight():
+    """FakeRead against real pysam records of the repository's test BAM files, accessor by accessor"""
+    from stubs.validate import validate_fakeread
+    return validate_fakeread(300)
+
 _T = {'quick': 60, 'thorough': 300}
 LEMMAS = [
     dict(name='L1_nla_site', fn='_l1_nla', engine='E1', timeout=_T, replay='replay.C09:replay',
@@ -129,7 +135,7 @@ PROPERTY = dict(
                 flags='invert_strand, check_motif, no_umi_cigar_processing, allow_cycle_shift symbolic'),
     outside=['no_overhang=True with soft-clipped reads or a reference window other than 7 bases (cut_location_offset != -4)', 'reads with indels inside the first 4 bases',
              'paired-end variants use one fixed R2 geometry', 'real pysam record storage (replay only)', 'the strategy names TCHIC / CTV, whose reads are trimmed like scCHIC384C8U3 but are treated as untrimmed by CHICFragment (one of the two offsets is wrong; the source does not say which)'],
-    assumptions=['FakeRead models pysam.AlignedSegment accessors (validated against real reads by stubs/validate.py)',
+    assumptions=['FakeRead models pysam.AlignedSegment accessors (validated in preflight against real pysam records of the test BAM files, accessor by accessor: stubs/validate.py)',
                  'ground truth geometry: recognised CATG occupies reference [X,X+4); forward read aligned start = X+clip; '
                  'reverse read aligned end = X+4-clip',
                  'CHIC site offsets (2 for trimmed scCHIC layouts, 1 for untrimmed) are protocol constants of the spec',
